@@ -18,7 +18,7 @@ PROPS['C04'] = dict(
         dict(name='pressure', variant='asan', harness='c04_voices.cpp', quick=8000, thorough=160000, opts=dict(mode='c04', pressure=1), **{'as': 'random'}),
         dict(name='exhaustive-d4', variant='asan', harness='c04_voices.cpp', quick=160000, thorough=160000, opts=dict(mode='c04', depth=4)),
         dict(name='exhaustive-d5', variant='asan', harness='c04_voices.cpp', quick=0, thorough=3200000, opts=dict(mode='c04', depth=5)),
-        dict(name='memcheck', variant='plain-d', harness='c04_voices.cpp', quick=300, thorough=6000, budget=150, wall=2400, opts=dict(mode='c04'), **{'as': 'random'},
+        dict(name='memcheck', variant='plain-d', harness='c04_voices.cpp', quick=300, thorough=3000, budget=150, wall=2400, opts=dict(mode='c04'), **{'as': 'random'},
              wrapper=['valgrind', '-q', '--error-exitcode=79', '--exit-on-first-error=yes', '--track-origins=no', '--leak-check=no']),
     ],
 )
@@ -37,7 +37,7 @@ PROPS['C05'] = dict(
     floor=40,
     assumptions=['percussion = MIDI channel 10', 'polyphony bound: comparison only while at least 2 chip channels were idle at every note-on'],
     stages=[
-        dict(name='random', variant='asan', harness='c04_voices.cpp', quick=15000, thorough=150000, opts=dict(mode='c05', maxops=300)),
+        dict(name='random', variant='asan', harness='c04_voices.cpp', quick=15000, thorough=100000, opts=dict(mode='c05', maxops=300)),
         dict(name='exhaustive-d4', variant='asan', harness='c04_voices.cpp', quick=160000, thorough=160000, opts=dict(mode='c05', depth=4)),
         dict(name='exhaustive-d5', variant='asan', harness='c04_voices.cpp', quick=0, thorough=3200000, opts=dict(mode='c05', depth=5)),
     ],
